@@ -143,6 +143,10 @@ EXTRA = [("open_limit", (1,)), ("open_limit", (2,)), ("open_limit", (3,)), ("ope
          ("getdata64", ("raw.i", 0, 0, 0, 5, 1)), ("getdata64", ("phase.i", 0, 0, 1, 0, 0x88)), ("get_constant", ("const.i", 0x88)),
          ("getdata64", ("raw", 0, I63 - 2, 0, 5, 1)), ("putdata64", ("raw", 0, I63 - 2, 0, 5, 1)), ("seek64", ("raw", 0, -5, 0)),
          ("seek64", ("phase", 0, 1, 0)), ("native_type", ("lcbad",)), ("getdata64", ("lcbad", 0, 0, 0, 1, 1)),
+         ("rename", ("raw", "newf", 16)), ("rename", ("sarray", "newf", 0x1F)), ("alter_carray", ("carray", 0x88, I63)),
+         ("alter_sarray", ("sarray", 1 << 61)), ("add_entry", ("newf", 7, 1, 0)), ("add_bit", ("newf", "raw", (1 << 31) - 1, 1, 0)),
+         ("open_limit", ((1 << 62) + 1,)), ("alter_lincom", ("lincom", 1, "raw")), ("alter_lincom", ("carray", 0, "raw")),
+         ("add_const", ("newf", 0x88, 0, 0)), ("constants", (0xfa0,)), ("alter_frameoffset64", (I63 - 1, 0, 0)),
          ("alter_bit", ("bit", "!", 63, 64)), ("alter_bit", ("bit", "!", 0, 65)), ("alter_sbit", ("sbit", "!", 70, 70))]
 
 
@@ -240,7 +244,7 @@ BADTYPE_OPS = {"add_const", "add_carray", "madd_const", "madd_carray", "constant
 def internal_key(op):
     if op in SLICE_FN and False:
         return "C10/slice-wrap/" + SLICE_FN[op]
-    return "C10/internal-error/bad-data-type" if op in BADTYPE_OPS else "C10/internal-error/%s" % op
+    return "C10/internal-error/bad-data-type" if op in BADTYPE_OPS else "C10/internal-error/%s" % op.replace("madd_", "add_")
 
 
 def leak_key(op, args, err):
@@ -258,9 +262,13 @@ def leak_key(op, args, err):
     return "C10/recurse-leak/%s/E%d" % (op, err)
 
 
-def crash_key(op, text):
+def crash_key(op, text, args=()):
     if "HANG" in text:
         return "C10/hang/%s" % op
+    if op == "open_limit" and args and abs(int(args[0])) >= (1 << 60):
+        return "C10/open_limit/size-overflow"
+    if op == "rename" and args and (int(args[2]) & 0x10):
+        return "C10/rename/flag-0x10-aliases-GD_REN_META"
     for fn, key in (("gd_get_carray_slice", "C10/slice-wrap/gd_get_carray_slice"), ("_GD_PutCarraySlice", "C10/slice-wrap/gd_put_carray_slice"),
                     ("gd_put_carray_slice", "C10/slice-wrap/gd_put_carray_slice"),
                     ("gd_get_sarray_slice", "C10/slice-wrap/gd_get_sarray_slice"), ("_GD_PutSarraySlice", "C10/slice-wrap/gd_put_sarray_slice"),
@@ -498,7 +506,7 @@ def main():
         ubl = [l for l in r["out"] if "runtime error:" in l]
         if r["crash"]:
             found_any = True
-            vA(crash_key(c["op"], r["crash"]), "%s: the call does not return: %s" % (what, r["crash"][:600]),
+            vA(crash_key(c["op"], r["crash"], c["args"]), "%s: the call does not return: %s" % (what, r["crash"][:600]),
                           {"kind": "impl-vs-spec", "op": c["op"], "args": c["args"], "report": r["crash"][:3000], "model": p})
             if p.get("tag") == "slice" and not p["accept"]:
                 model_bad.append((what, "model rejects, implementation crashed"))
@@ -648,7 +656,7 @@ def main():
         if r is None:
             continue
         if r["crash"]:
-            viol.setdefault(crash_key(c["op"], r["crash"]), []).append((what, c, "the call does not return normally: " + r["crash"][-1500:]))
+            viol.setdefault(crash_key(c["op"], r["crash"], c["args"]), []).append((what, c, "the call does not return normally: " + r["crash"][-1500:]))
             continue
         for l in r["out"]:
             if "runtime error:" in l:
